@@ -703,7 +703,7 @@ def decorate(draw, prog, abi=True, rename=True, disable=True, density=4, namespa
     return placed
 
 
-def add_trait(draw, prog, name="DvTrait", disable_for=None):
+def add_trait(draw, prog, name="DvTrait", disable_for=None, options=False):
     """kotlin only (the one backend with trait support): a bridged trait whose methods take primitives / enums / structs, and a struct
     method taking `impl DvTrait`"""
     mod = prog["modules"][0]
@@ -719,10 +719,16 @@ def add_trait(draw, prog, name="DvTrait", disable_for=None):
         if k == "struct":
             return ["struct", draw(st.sampled_from(hosts))["name"], []]
         return ["prim", draw(st.sampled_from(["u8", "i16", "i32", "u32", "i64", "f32", "f64", "bool"]))]
+
+    def pty():
+        t = ty()
+        if options and t[0] in ("prim", "enum") and draw(st.integers(0, 2)) == 0:
+            return ["opt", t, draw(st.sampled_from(["std", "std", "dip"]))]
+        return t
     methods = []
     for i in range(draw(st.integers(1, 2))):
-        params = [["a%d" % j, ty()] for j in range(draw(st.integers(0, 3)))]
-        ret = draw(st.sampled_from([None, ["prim", "i32"], ["prim", "u8"], ["prim", "f64"]]))
+        params = [["a%d" % j, pty()] for j in range(draw(st.integers(0, 3)))]
+        ret = draw(st.sampled_from([None, ["prim", "i32"], ["prim", "u8"], ["prim", "f64"]] + ([["opt", ["prim", "u8"], "std"], ["opt", ["prim", "i64"], "std"]] if options else [])))
         methods.append({"name": "go%d" % i, "params": params, "ret": ret})
     if disable_for and draw(st.integers(0, 2)) == 0:
         # one method switched off for a backend: its vtable slot stays (the layout is the proc macro's)
